@@ -27,17 +27,37 @@ P = {'id': 'C13',
               'sbr_seek_current',
               'range_reads_concat',
               'range_initial_stream',
-              'zc_reads_concat'],
+              'zc_reads_concat',
+              'types_law',
+              'types_concat_law',
+              'record_fields_law',
+              'versioned_record_law',
+              'vs_accepted_is_record',
+              'vs_same_version_accepts',
+              'writers_concat',
+              'writers_flushed',
+              'range_read_is_cursor_read',
+              'sbr_over_range_stream',
+              'range_writer_confined',
+              'range_writer_contiguous',
+              'mmap_zc_reads_concat',
+              'mmap_zc_set_position'],
  'trusted': ['modelled (M+S): src/io/var_int.rs (VarInt, SignedVarInt), src/io/var_int_variants.rs (all 7 strategies, single values and sequences); '
              'src/io/simd_encoding/varint.rs (batch = concatenation of scalar LEB128); src/io/data_output.rs / data_input.rs item formats (fixed-width LE, '
              'varint, length-prefixed bytes/strings); src/io/endian.rs EndianIO byte layouts (LE/BE, any width) and byte swap; Option / Vec (u32 count) / '
              'versioned-field layouts of complex_types.rs, smart_ptr.rs, versioning.rs; StreamBufferedReader, RangeReader, ZeroCopyReader state machines '
-             '(src/io/stream_buffer.rs, range_stream.rs, zero_copy.rs) over an inner cursor with optional short reads',
+             '(src/io/stream_buffer.rs, range_stream.rs, zero_copy.rs) over an inner cursor with optional short reads; '
+             'extension: the serialisable types as one universe of type codes (SerializableType / ComplexSerialize impls of smart_ptr.rs and complex_types.rs: '
+             'integers, bool, String, Option, Box, context-free Rc/Arc, Vec / sets / maps, arrays, tuples, Result, the metadata form, arbitrarily nested), '
+             'versioned records of versioning.rs (serialize_with_manager / deserialize_with_manager, serialize_versioned / deserialize_versioned, '
+             'VersionedSerializer::deserialize_from_bytes with its VersionConfig checks), StreamBufferedWriter and ZeroCopyWriter as state machines over a '
+             'short-write inner writer, RangeWriter as a transducer to inner writes (with seeks), a buffered reader stacked on a RangeReader, MmapZeroCopyReader, '
+             'the preset readers performance_optimized / low_latency / ZeroCopyReader::new',
              'spec-only (oracle on the real code, no mechanism model): every DataInput/DataOutput back end pairing (Vec, std::io writer/reader, file, append, '
              'mmap output, MmapDataInput, MemoryMappedInput, buffered / zero-copy / range wrappers), tuples up to 12, arrays, Result, HashMap/HashSet/BTreeMap/BTreeSet, '
-             'nested collections, ComplexTypeSerializer configurations and batches, Box/Rc/Arc/Weak and shared-pointer contexts, VersionedSerialize records and '
-             'VersionedSerializer configurations, VersionProxy ranges, bulk endian conversion, endianness magic, MmapZeroCopyReader, MultiRangeReader, '
-             'StreamBufferedWriter, ZeroCopyWriter, RangeWriter; second pass (design/C13.md, "Oracle breadth"): preset constructors and configurations, the strategy chooser, '
+             'nested collections (as DataInput/DataOutput back ends; their layouts are modelled), ComplexTypeSerializer configurations and batches, Weak pointers and shared-pointer contexts, '
+             'VersionProxy ranges, migrations, bulk endian conversion, endianness magic, MultiRangeReader, a RangeReader stacked on a buffered reader, '
+             'seeks on the buffered writer, ZeroCopyBuffer on its own, MemoryMappedOutput; second pass (design/C13.md, "Oracle breadth"): preset constructors and configurations, the strategy chooser, '
              'sequences and collections of up to 70 000 elements and inputs of up to 8.6 MB named by (kind, n, seed), VectoredIO, UTF-8 / CRC32C of buffered bytes, '
              'ZeroCopyBuffer, seekable buffered / range / memory-mapped writers, MultiRangeReader range management, context reuse, cross-version records and migrations',
              ],
@@ -45,12 +65,20 @@ P = {'id': 'C13',
                  'agreement of model and code is established on the generated cases only',
                  'the inner reader of the reader models is a std::io::Cursor, optionally limited to k bytes per call; other inner readers are covered by the '
                  'oracle only (files, memory maps, readers stacked on readers)',
-                 'reader theorems speak about histories without an error outcome; that plain reads never fail is checked on the real code by the oracle'],
+                 'reader theorems speak about histories without an error outcome; that plain reads never fail is checked on the real code by the oracle',
+                 'type-universe model: strings are byte lists (UTF-8 validation not modelled), maps are the pair list in the iteration order of the serialising '
+                 'object, Rc/Arc outside a shared context only, collections below 2^32 elements',
+                 'writer theorems: capacity >= 1 and an inner writer that never fails and accepts at least one byte per call (the harness destination); '
+                 'histories that end in an error are excluded'],
  'level_text': 'Machine-checked Coq theorems, unbounded (all values / all sequences / all trailing bytes / all operation histories, buffer capacities and '
                'short-read behaviours), about a Gallina restatement of the codecs and readers as written: varint laws, zigzag bijection, prefix-free law, '
                'sequence / option / pair / u32-counted-vector combinators, fixed-width LE/BE integers of any width, byte-swap involution, length-prefixed '
                'byte strings, versioned fields, Version packing (law + refutation), delta law outside the recorded finding class, refutation witnesses for '
-               'the recorded findings, and "the bytes handed out concatenate to the inner stream (of the range)" for the buffered, the ranged and the zero-copy reader. The '
+               'the recorded findings, "the bytes handed out concatenate to the inner stream (of the range)" for the buffered, the ranged and the zero-copy reader, '
+               'the round-trip law for EVERY type code of the serialisable-type universe (one induction on the code), versioned records for every schema and every '
+               '(writer version, reading version) pair incl. the VersionedSerializer acceptance logic, "destination ++ buffer = accepted bytes" for every history of '
+               'the buffered and the zero-copy writer, confinement of the range writer under every history of writes and seeks, and "a RangeReader over a cursor reads '
+               'like a cursor over the range slice". The '
                'model is tied to the compiled code on every run by evaluating thousands of generated cases (values, item scripts, reader histories) in Coq and '
                'comparing with what the implementation returned; a direct oracle (round trip, exact bytes consumed, concatenation, reader = reference slice '
                'under arbitrary read-size histories) runs on the implementation over every back end the property names.',
